@@ -443,29 +443,22 @@ func discharge(results []*FuncResult, timeoutS int, shortFor map[string]bool) []
 			go func() {
 				defer wg.Done()
 				var sr SolveResult
-				if qf != "" {
-					// first the quantifier-free weakening (fewer hypotheses): unsat there is a proof; sat gives a
-					// candidate counter-model (it ignores the quantified axioms, so it must replay to count)
+				sr = Solve(o.Name, script, timeoutS, o.Expect == "unsat")
+				if qf != "" && sr.Status != "unsat" && sr.Status != "sat" {
+					// undecided: try the quantifier-free weakening (fewer hypotheses). unsat there is still a proof; sat
+					// gives a candidate counter-model (it ignores the quantified axioms, so it must replay to count)
 					q := Solve(o.Name+".qf", qf, 10, true)
 					if q.Status == "unsat" {
 						q.Solver += "/qf"
 						sr = q
-					} else {
-						t := timeoutS
-						if q.Status == "sat" && t > 8 {
-							t = 8
-						}
-						sr = Solve(o.Name, script, t, true)
-						if sr.Status != "unsat" && sr.Status != "sat" && q.Status == "sat" {
-							sr.Model = q.Model
-							sr.Raw = "full query: " + sr.Status + "; quantifier-free weakening is satisfiable (candidate model below)\n" + q.Model
-							sr.Status = "candidate"
-							sr.Solver = q.Solver + "/qf"
-						}
+					} else if q.Status == "sat" {
+						sr.Model = q.Model
+						sr.Raw = "full query: " + sr.Status + "; quantifier-free weakening is satisfiable (candidate model below)\n" + q.Model
+						sr.Status = "candidate"
+						sr.Solver = q.Solver + "/qf"
 					}
-				} else {
-					sr = Solve(o.Name, script, timeoutS, o.Expect == "unsat")
 				}
+
 				o.Result = &sr
 				rep.Solver = sr.Solver
 				rep.Secs = sr.Secs
